@@ -397,6 +397,21 @@ func load(T types.Type, addr *value) value {
 			a[i] = load(T.Elem(), &v[i])
 		}
 		return a
+	case *types.Basic:
+		// a string read through a pointer that unsafe made out of a *[]byte
+		// (the "zero-copy" idiom): the string shares the slice's bytes, so a
+		// later store into the slice shows through it - exactly what the real
+		// memory does.  Every other type pun is outside the model.
+		if T.Kind() == types.String {
+			switch v := (*addr).(type) {
+			case string, symstr:
+			case []value:
+				return symstr{v}
+			default:
+				panic(unsupported{fmt.Sprintf("load of a string through a pointer to %T (unsafe)", v)})
+			}
+		}
+		return *addr
 	default:
 		return *addr
 	}
